@@ -207,6 +207,15 @@ def run(cfg, w):
         a_not_b = [d for d in A if not has_letter(B, d)]
         b_not_a = [d for d in B if not has_letter(A, d)]
         want = {"or": A + b_not_a, "and": a_in_b, "sub": a_not_b, "xor": a_not_b + b_not_a, "add": A + B}[op]
+        if op == "add" and len(A) == 1:
+            # a single Dimension as the left operand of '+': the same rule (a shared letter is refused, nothing is dropped)
+            for tag2, right in (("dimension_plus_set", sb),) + ((("dimension_plus_dimension", B[0]),) if len(B) == 1 else ()):
+                try:
+                    r3 = A[0] + right
+                    w.ob(f"{tag2}:refuses_overlap", len(a_in_b) == 0)
+                    check_list(w, f"{tag2}:result", r3, A + B)
+                except Exception as e:
+                    w.ob(f"{tag2}:raises_only_for_overlap", len(a_in_b) > 0, info=f"{type(e).__name__}: {e}")
         try:
             res = {"or": lambda: sa | sb, "and": lambda: sa & sb, "sub": lambda: sa - sb, "xor": lambda: sa ^ sb, "add": lambda: sa + sb}[op]()
         except Exception as e:
@@ -240,6 +249,14 @@ def run(cfg, w):
                 want = [A[i] for i in sel]
                 r2 = sa[keys]
                 w.ob("tuple_getitem", ids(r2.dim_list) == ids(want))
+                # the keys as a list and as one-shot iterables (a generator, reversed(), map): the same subset
+                for how, arg in (("list", list(keys)), ("generator", (k_ for k_ in keys)), ("iterator", iter(list(keys))),
+                                 ("reversed", reversed(list(keys)[::-1])), ("map", map(lambda k_: k_, keys))):
+                    try:
+                        r3 = sa.get_subset(arg)
+                        w.ob(f"keys_as_{how}", ids(r3.dim_list) == ids(want), info=str([d.name for d in r3.dim_list]))
+                    except Exception as e:
+                        w.ob(f"keys_as_{how}", False, info=f"{type(e).__name__}: {e}")
             check_list(w, "subset", res, want)
             check_list(w, "receiver", sa, A)
             f = probe_dim(env, w, A)
